@@ -43,6 +43,8 @@ pub fn hs(m: &TlsMessageHandshake) -> MHs {
         TlsMessageHandshake::CertificateStatus(s) => MHs::CertificateStatus { ty: s.status_type, blob: s.blob.to_vec() },
         TlsMessageHandshake::NextProtocol(n) => MHs::NextProtocol { proto: n.selected_protocol.to_vec(), padding: n.padding.to_vec() },
         TlsMessageHandshake::KeyUpdate(v) => MHs::KeyUpdate(*v),
+        #[allow(unreachable_patterns)]
+        _ => MHs::ServerKeyExchange(b"<variant unknown to the harness>".to_vec()),
     }
 }
 
@@ -61,6 +63,8 @@ pub fn cke(c: &TlsClientKeyExchangeContents) -> Vec<u8> {
             v.extend_from_slice(p.point);
             v
         }
+        #[allow(unreachable_patterns)]
+        _ => b"<variant unknown to the harness>".to_vec(),
     }
 }
 
@@ -71,6 +75,8 @@ pub fn msg(m: &TlsMessage) -> MMsg {
         TlsMessage::Alert(a) => MMsg::Alert(a.severity.0, a.code.0),
         TlsMessage::ApplicationData(d) => MMsg::AppData(d.blob.to_vec()),
         TlsMessage::Heartbeat(h) => MMsg::Heartbeat { ty: h.heartbeat_type.0, payload_len: h.payload_len, payload: h.payload.to_vec() },
+        #[allow(unreachable_patterns)]
+        _ => MMsg::AppData(b"<variant unknown to the harness>".to_vec()),
     }
 }
 
@@ -114,6 +120,8 @@ pub fn ext(e: &TlsExtension) -> MExt {
         },
         TlsExtension::Grease(t, d) => MExt::Grease(*t, d.to_vec()),
         TlsExtension::Unknown(t, d) => MExt::Unknown(t.0, d.to_vec()),
+        #[allow(unreachable_patterns)]
+        _ => MExt::Unknown(0xffff, b"<variant unknown to the harness>".to_vec()),
     }
 }
 
@@ -183,6 +191,8 @@ pub fn ec_params(p: &ECParameters) -> (u8, MEcParams) {
             order: e.order.to_vec(),
             cofactor: e.cofactor.to_vec(),
         },
+        #[allow(unreachable_patterns)]
+        _ => MEcParams::ExplicitPrime { p: b"<variant unknown to the harness>".to_vec(), a: vec![], b: vec![], base: vec![], order: vec![], cofactor: vec![] },
     };
     (p.curve_type.0, m)
 }
